@@ -171,6 +171,9 @@ func vC20(steps, maxNames, maxLen int, stubFails bool) {
 			vAssert(len(spy.calls) == ncalls+1 && c.op == "wstat" && c.fid == ent.fid, "C20: wstat issues WStat on the entry's own fid")
 		case 7: // attach again on the same client file system
 			r2, err := cfs.Attach(vBG, "u", "a", nil)
+			if !stubFails {
+				vAssert(err == nil, "C20: a further attach succeeds on a fid distinct from every live entry's")
+			}
 			if err == nil {
 				live = append(live, r2.(cEnt))
 				vReach("c20.reattach")
